@@ -15,3 +15,4 @@ import NbioVerif.Properties.C17
 #print axioms ConnFull.c17_inv_nodup
 #print axioms ConnFull.c17_sendfile_nodup_no_overflow
 #print axioms ConnFull.c17_fits_sendfile_nodup_partial
+#print axioms ConnFull.c17_fits_writev_iovmax_partial
